@@ -44,7 +44,9 @@ def cases(tier, seed):
         d = bool(rs.rand() < .5)
         recs.append((['er', n, float(rs.choice([.08, .15, .25, .4, .7])), d, int(rs.randint(1 << 30))], d))
     for i, (g, d) in enumerate(recs):
-        out.append({'g': g, 'directed': d, 'ws': seed * 100 + i, 'schemes': ['bin', 'int', 'dyad', 'real', 'neartie', 'bigint']})
+        out.append({'g': g, 'directed': d, 'ws': seed * 100 + i, 'schemes': ['bin', 'int', 'dyad', 'real', 'neartie', 'bigint', 'logu']})
+    for g in G.many_paths(200):
+        out.append({'g': g, 'directed': g[-1] is True, 'ws': 1, 'schemes': ['bin']})
     return out
 
 
@@ -59,7 +61,7 @@ def tie_free(L):
             for u in range(n):
                 if L[u, v] != 0 and np.isfinite(D[s, u]):
                     c = D[s, u] + L[u, v]
-                    if c != D[s, v] and abs(c - D[s, v]) <= 1e-9 * max(1.0, D[s, v]):
+                    if c != D[s, v] and abs(c - D[s, v]) <= 1e-9 * max(abs(c), D[s, v]):
                         return False
                     if c == D[s, v]:
                         pass
@@ -72,15 +74,15 @@ def run(case, bct, REC):
     n = len(A)
     for sc in case['schemes']:
         L = G.weigh(A, sc, case['ws'], symmetric=not directed)
-        if sc == 'real':
+        if sc in ('real', 'logu'):
             # a tie in real lengths can only be a rounding artefact: keep only matrices where every shortest path
             # is unique and no near-tie exists
-            BC0, EBC0, D0, sg0 = O.betweenness(L, rtol=1e-9)
+            BC0, EBC0, D0, sg0 = (O.betweenness if n <= 12 else O.betweenness_fast)(L, rtol=1e-9)
             if not tie_free(L) or (sg0[np.isfinite(D0)] > 1).any():
                 REC.tag(PROP, 'real_with_near_tie_skipped')
                 continue
         REC.tag(PROP, 'exec')
-        BC, EBC, D, sg = O.betweenness(L, rtol=1e-9 if sc == 'real' else 0.0)
+        BC, EBC, D, sg = (O.betweenness if n <= 12 else O.betweenness_fast)(L, rtol=1e-9 if sc in ('real', 'logu') else 0.0)
         off = ~np.eye(n, dtype=bool)
         fin = np.isfinite(D) & off
         det = {'L': L}
